@@ -240,6 +240,22 @@ func main() {
 	// ---- unicode tables of the Go toolchain in use (regexp \\p{L}, unicode.IsSpace) ----
 	rangeTable("letter_ranges", unicode.L)
 	rangeTable("space_ranges", unicode.White_Space)
+	// strconv.IsPrint (what strconv.Quote leaves unescaped), as ranges
+	{
+		var xs []string
+		lo := -1
+		for c := 0; c <= 0x10FFFF+1; c++ {
+			p := c <= 0x10FFFF && strconv.IsPrint(rune(c))
+			if p && lo < 0 {
+				lo = c
+			}
+			if !p && lo >= 0 {
+				xs = append(xs, fmt.Sprintf("(%d, %d)", lo, c-1))
+				lo = -1
+			}
+		}
+		pf("Definition print_ranges : list (N * N) := [\n  %s]%%N.\n\n", strings.Join(xs, ";\n  "))
+	}
 
 	// ---- token kinds (parser/token/type.go) ----
 	order, tv := constStrings("parser/token/type.go")
